@@ -81,6 +81,24 @@ def ah(cx):
             # this scenario's side conditions do not fix a quantity the code branches on: not decided HERE; the other
             # scenarios still are.  Without any positive report the rule as a whole stays undecided (exit 2, never a pass)
             undecided.append(str(e))
+    # configurations: a growth step that is not positive can never serve a request beyond the capacity (grow(0) for
+    # ever / a shrinking capacity): the constructor refuses it, None keeps the doubling policy (PF62)
+    for gs, want_refusal in ((0, True), (-8, True), (1, False), (None, False)):
+        I = Interp(m)
+        XB = I.global_lookup("context", "XBuffer")
+        me = Obj("instance", {}, cls=XB)
+        me.attrs["_make_context"] = Builtin("_make_context", lambda: Obj("context", {"minimum_alignment": 8}, name="ctx"))
+        me.attrs["_new_buffer"] = Builtin("_new_buffer", lambda c: Opaque("storage"))
+        init, owner = I.find_in_class(XB, "__init__")
+        res = I.explore(lambda: I.call(I._bind(init, me, XB), [], {"capacity": 64, "grow_step": gs}), max_paths=4)
+        if len(res) != 1:
+            raise AnalysisError(f"[AH] XBuffer(grow_step={gs!r}): {len(res)} evaluation paths")
+        e = res[0]["exc"]
+        if e is not None and e.etype in ("AttributeError", "NameError"):
+            raise AnalysisError(f"[AH] XBuffer(grow_step={gs!r}) cannot be evaluated: {e.etype}: {e.msg}")
+        refused = e is not None
+        cx.check(refused == want_refusal, m.func("context::XBuffer.__init__"), construct=f"XBuffer(capacity=64, grow_step={gs!r})", detail="refused" if want_refusal else "accepted",
+                 bad_detail=("accepted: a request beyond the capacity then grows by this step for ever (never returns) / shrinks the capacity" if want_refusal else f"refused with {e.etype if e else ''}: a legal configuration"), sub="config")
     if undecided and not any(i.verdict == "violation" for i in cx.insts):
         raise AnalysisError(f"{len(undecided)} allocator histories are not decided: {undecided[0]}")
     for u in undecided:
